@@ -64,7 +64,10 @@ def do_run(name, checks, tier="quick"):
         if rc != 0:
             rc, out = sh(["patch", "-p1", "-i", os.path.join(d, "patch.diff")], cwd=scratch)
         assert rc == 0, out
-        env = dict(os.environ, LSF_REPO=scratch)
+        # (a private run/evidence directory: a run against a changed copy must not overwrite the evidence of /repo itself)
+        rundir = os.path.join(scratch, "verif-run")
+        os.makedirs(rundir, exist_ok=True)
+        env = dict(os.environ, LSF_REPO=scratch, VERIF_RUN_DIR=rundir)
         for c in checks:
             t0 = time.time()
             rc, out = sh([os.path.join(VERIF, "check"), c, "--tier", tier], cwd=VERIF, env=env)
